@@ -8,6 +8,7 @@ set -u
 id=$1; n=$2; shift 2
 ID=${id^^}
 src=/tmp/seed/$id/OUT/$n
+[ -f $src/patch.diff ] || src=/verif/seeded/$ID-$n
 [ -f $src/patch.diff ] || { echo "no patch in $src"; exit 2; }
 . /verif/scripts/env.sh
 wt=/tmp/seedv/$id-$n
@@ -27,7 +28,7 @@ git checkout -q -- . ; git clean -fdq -e OUT >/dev/null 2>&1
 ( bash OUT/$n/run_demo.sh > /tmp/seedv/$id-$n.demo0 2>&1 ); echo "demo_exit_without_change=$?" >> $res
 cat $res
 dst=/verif/seeded/$ID-$n
-mkdir -p $dst && cp -r $src/* $dst/
+mkdir -p $dst; [ "$src" = "$dst" ] || cp -r $src/* $dst/
 # run the checks against it
 for chk in "$@"; do
   out=$(/verif/scripts/mutest.sh $dst/patch.diff $chk quick 2>&1 | tail -1)
